@@ -84,7 +84,7 @@ CLAIMED['C01'] = {
             'index selection, RAM lowering, code generation, the semi-naive loop and the runtime, not the flattening front end. Neither verifier can take the generated loop or the rule '
             'functions (extern "Rust", runtime iterators), so this is the bounded stand-in for the postcondition of close().',
     'design_ref': '§6 C01',
-    'note': 'Bounded stand-in, labelled exploration, never counted as proved. Programs are sampled (7 probes, 43 flat rules); source-level rule semantics (nested terms, premise equalities) are not '
+    'note': 'Bounded stand-in, labelled exploration, never counted as proved. Programs are sampled (17 probe theories); source-level rule semantics (nested terms, premise equalities) are not '
             're-derived -- the flat rule is trusted as the statement of the rule.',
     'technique': 'bounded native execution of an executable postcondition of the generated close on emitted probe modules (labelled bounded)',
 }
